@@ -21,15 +21,16 @@ class Shape:
     """an outline: name / steps templates and Examples tables.
     templates: list of parts 'L' (literal) | 'P<k>' (placeholder number k) ; tables: list of (ncols, nrows) | None (no table)"""
 
-    def __init__(self, label, name, steps, tables, nph):
+    def __init__(self, label, name, steps, tables, nph, untagged=()):
         self.label, self.name, self.steps, self.tables, self.nph = label, name, steps, tables, nph
+        self.untagged = tuple(untagged)      # indices of Examples blocks without a tag of their own
 
 
 def shapes(tier):
     S = Shape
     out = [
         S('two-rows', ['L', 'P0', 'L'], [dict(value=['P0', 'P1'], doc=['L', 'P1'], table=[[['P0'], ['L']]])], [(2, 2)], 2),
-        S('two-tables', ['P0'], [dict(value=['L', 'P0', 'L', 'P0'], doc=None, table=None), dict(value=['L'], doc=None, table=None)], [(1, 1), (1, 2)], 1),
+        S('two-tables', ['P0'], [dict(value=['L', 'P0', 'L', 'P0'], doc=None, table=None), dict(value=['L'], doc=None, table=None)], [(1, 1), (1, 2)], 1, untagged=(1,)),
         S('header-only-and-no-table', ['L'], [dict(value=['P0'], doc=None, table=None)], [(1, 0), None, (1, 1)], 1),
         S('no-examples', ['L', 'P0'], [dict(value=['P0'], doc=None, table=None)], [], 1),
         # two tables whose headers may list the same names in a different order / only partly
@@ -102,7 +103,7 @@ class Builder:
                 rows += [[self.sym('%s.ex%d.r%d.c%d' % (tag, j, r, c)) for c in range(nc)] for r in range(nr)]
                 t = self.table(rows, L + bv(1))
             exs.append(self.st('Examples', keyword=self.sym('Examples'), name=self.opt(None, 'String'), description=self.opt(None, 'String'),
-                               table=self.opt(t, 'Table'), tags=self.vec([self.sym('%s.ex%d.tag' % (tag, j))], 'Vec<String>'), span=self.span(),
+                               table=self.opt(t, 'Table'), tags=self.vec([] if j in sh.untagged else [self.sym('%s.ex%d.tag' % (tag, j))], 'Vec<String>'), span=self.span(),
                                position=self.linecol(L, bv(5))))
         sc = self.st('Scenario', keyword=self.sym('Scenario Outline'), name=self.tmpl(sh.name, tag + '.name'), description=self.opt(None, 'String'),
                      steps=self.vec(steps, 'Vec<Step>'), examples=self.vec(exs, 'Vec<Examples>'),
@@ -221,7 +222,7 @@ def expected(ex, sh, tag, decide=None):
             if unknown:
                 out.append(('err', set(unknown)))
             else:
-                out.append(('ok', {'name': name, 'steps': steps, 'tags': [tag + '.tag0', tag + '.tag1', '%s.ex%d.tag' % (tag, j)], 'table': j, 'row': r}))
+                out.append(('ok', {'name': name, 'steps': steps, 'tags': [tag + '.tag0', tag + '.tag1'] + ([] if j in sh.untagged else ['%s.ex%d.tag' % (tag, j)]), 'table': j, 'row': r}))
     return out
 
 
@@ -341,7 +342,7 @@ class Realizer:
                 for r, row in enumerate(s['table']):
                     L.append('%s    | %s |' % (ind, ' | '.join(self.tmpl_text(c, '%s.s%d.t%d.%d' % (tag, i, r, k)) for k, c in enumerate(row))))
         for j, tb in enumerate(sh.tables):
-            L += ['%s  @%s.ex%d.tag' % (ind, tag, j), '%s  Examples:' % ind]
+            L += ([] if j in sh.untagged else ['%s  @%s.ex%d.tag' % (ind, tag, j)]) + ['%s  Examples:' % ind]
             if tb is None:
                 continue
             nc, nr = tb
@@ -389,7 +390,7 @@ def native_expand(chk, text, tagname):
     from checks import replay
     d = os.path.join(common.EVID, 'replay')
     os.makedirs(d, exist_ok=True)
-    path = os.path.join(d, 'C16-%s.script' % tagname)
+    path = os.path.join(d, '%s-outline-%s.script' % (chk.prop, tagname))
     script = 'mode outline\n' + ''.join('| %s\n' % ln if ln else '|\n' for ln in text.split('\n')[:-1])
     r, out = replay.run_script(script, path, timeout=60)
     chk.replays += 1
@@ -564,8 +565,16 @@ def feature_level(chk, ob, shs):
         raise Inconclusive('expand_examples: %d candidates' % len(ee))
     by = {s.label: s for s in shs}
     plain = Shape('plain', ['L'], [dict(value=['L'], doc=None, table=None)], [], 0)
-    top = [('p0', plain), ('t1', by['two-tables']), ('p1', plain)]
-    rule = [('r0', by['two-rows']), ('p2', plain)]
+    rowless = Shape('rowless', ['L', 'P0'], [dict(value=['P0'], doc=None, table=None)], [(1, 0), None], 1)
+    total = 0
+    # second configuration: no Examples table of the whole feature has a data row - the outlines expand to nothing
+    for top, rule in (([('p0', plain), ('t1', by['two-tables']), ('p1', plain)], [('r0', by['two-rows']), ('p2', plain)]),
+                      ([('p0', plain), ('t1', rowless)], [('r0', rowless), ('p2', plain)])):
+        total += _feature_level(chk, ob, ee, top, rule)
+    return total
+
+
+def _feature_level(chk, ob, ee, top, rule):
     ex, M = chk.new_exec(loop_bound=40, max_paths=4000)
     n = [0]
 
@@ -654,6 +663,17 @@ def feature_level(chk, ob, shs):
     return n[0]
 
 
+PROP = ['C16']
+
+
+def obligations(chk, prop):
+    PROP[0] = prop
+    try:
+        body(chk)
+    finally:
+        PROP[0] = 'C16'
+
+
 def body(chk):
     prog = chk.prog
     es = prog.bodies.get('expand_scenario') or prog.bodies.get('feature::expand_scenario')
@@ -665,7 +685,7 @@ def body(chk):
 
     def ob(name):
         if name not in obs:
-            obs[name] = chk.add(Obligation('C16.%s' % name, bound))
+            obs[name] = chk.add(Obligation('%s.%s%s' % (PROP[0], '' if PROP[0] == 'C16' else 'outline.', name), bound))
             obs[name].verdict = 'holds'
         return obs[name]
     npaths = 0
@@ -733,7 +753,7 @@ def body(chk):
         elif o.verdict == 'violated' and getattr(o, 'feature', None) is not None:
             confirm_feature(chk, o, name)
     # translator validation: explored paths realised as .feature files must expand natively to what the symbolic run produced
-    agree = chk.add(Obligation('C16.model-agrees-with-native-expand_examples', 'sampled explored paths'))
+    agree = chk.add(Obligation('%s.%smodel-agrees-with-native-expand_examples' % (PROP[0], '' if PROP[0] == 'C16' else 'outline.'), 'sampled explored paths'))
     agree.kind = 'witness'
     agree.verdict = 'witness-ok'
     n = 0
@@ -764,7 +784,7 @@ def body(chk):
         agree.detail = '%d paths replayed natively: identical expansion' % n
         if n == 0:
             agree.verdict, agree.detail = 'witness-missing', 'no path could be realised'
-    w = chk.add(Obligation('C16.witness', 'exploration'))
+    w = chk.add(Obligation('%s.%switness' % (PROP[0], '' if PROP[0] == 'C16' else 'outline.'), 'exploration'))
     w.kind = 'witness'
     w.verdict = 'witness-ok' if npaths >= 10 and len(obs) >= 6 else 'witness-missing'
     w.detail = '%d paths, obligations %s' % (npaths, sorted(obs))
